@@ -740,6 +740,14 @@ def _named_fn(name):
         _LOG.append(["to_s", canon(x)])
         return str(x)
 
+    def null_to_s(x):
+        _LOG.append(["null_to_s", canon(x)])
+        return "missing" if x is None else x
+
+    def count(x):
+        _LOG.append(["count", canon(x)])
+        return x
+
     def logrow(row):
         _LOG.append(["logrow", canon(tuple(row))])
         return row
@@ -748,7 +756,7 @@ def _named_fn(name):
         return row[0]
 
     return {"add10": add10, "raise_odd": raise_odd, "type_error": type_error, "neg": neg, "to_s": to_s,
-            "logrow": logrow, "first": first, "none": None}[name]
+            "logrow": logrow, "first": first, "none": None, "null_to_s": null_to_s, "count": count}[name]
 
 
 def val(spec):
@@ -919,12 +927,21 @@ def _enc_res(f, enc=lambda x: x):
 
 
 _MFN = {}
+NONE_CODE = -1000
+
+
+def _dn(v):
+    return None if v == NONE_CODE else v
+
+
+def _en(v):
+    return NONE_CODE if v is None else v
 
 
 def _model_fn(k):
     if k not in _MFN:
         def f(x, k=k):
-            _LOG.append([k, x])
+            _LOG.append([k, NONE_CODE if x is None else x])
             if k == 1:
                 return x + 10
             if k == 2:
@@ -933,6 +950,10 @@ def _model_fn(k):
                 return 2 * x
             if k == 3:
                 return None + 1
+            if k == 5:  # NOT None-preserving: a TypeDecorator translating NULL
+                return 77 if x is None else x + 1
+            if k == 6:  # passes everything through; only its calls are observable
+                return x
             return -x
 
         _MFN[k] = f
@@ -952,26 +973,26 @@ def exec_model(t, kind):
         from sqlalchemy.engine._row_cy import BaseRow
 
         procs = [None if p == 0 else _model_fn(p) for p in t[1]]
-        data = tuple(t[2])
-        r = _enc_res(lambda: list(BaseRow(_MD(), procs, {}, data)._to_tuple_instance()))
+        data = tuple(_dn(x) for x in t[2])
+        r = _enc_res(lambda: [_en(x) for x in BaseRow(_MD(), procs, {}, data)._to_tuple_instance()])
         return [list(_LOG), r]
     if op in (2, 3):
         from sqlalchemy.engine import result as R
 
         if op == 2:
             procs = [None if p == 0 else _model_fn(p) for p in t[1]]
-            rows = [tuple(t[2])]
+            rows = [tuple(_dn(x) for x in t[2])]
         else:
             procs = [_model_fn(t[1])]
-            rows = [(x,) for x in t[2]]
+            rows = [(_dn(x),) for x in t[2]]
         md = R.SimpleResultMetaData(["c%d" % i for i in range(len(procs))], _processors=procs)
         res = R.IteratorResult(md, iter(rows))
         if op == 2:
-            r = _enc_res(lambda: list(res._raw_all_tuples()[0]))
+            r = _enc_res(lambda: [_en(x) for x in res._raw_all_tuples()[0]])
         elif kind == "m3b":
-            r = _enc_res(lambda: [x[0] for x in res._raw_all_tuples()])
+            r = _enc_res(lambda: [_en(x[0]) for x in res._raw_all_tuples()])
         else:
-            r = _enc_res(lambda: [x[0] for x in res.all()])
+            r = _enc_res(lambda: [_en(x[0]) for x in res.all()])
         return [list(_LOG), r]
     if op == 4:
         from sqlalchemy.engine._row_cy import BaseRow
@@ -1036,6 +1057,24 @@ def exec_model(t, kind):
 
         r = immutabledict({k: v for k, v in t[1]}).union({k: v for k, v in t[2]})
         return [[k, v] for k, v in dict.items(r)]
+    if op == 11:
+        from sqlalchemy.util._collections_cy import OrderedSet, unique_list
+
+        objs, reads = [], []
+        for o in t[1]:
+            if o[0] == 0:
+                objs.append(list(o[1]))
+            elif o[0] == 1:
+                objs.append(unique_list(objs[o[1]]))
+            elif o[0] == 2:
+                objs.append(OrderedSet(objs[o[1]]))
+            elif o[0] == 3:
+                objs[o[1]].append(o[2])
+            elif o[0] == 4:
+                objs[o[1]].add(o[2])
+            else:
+                reads.append(list(objs[o[1]]))
+        return reads
     raise ValueError("unknown model op %r" % (op,))
 
 
@@ -1137,7 +1176,14 @@ def exec_surface(prog):
             elif name == "tuplegetter_form":
                 f = lambda: U.tuplegetter(*args[0])
             elif name == "unique_list":
-                f = lambda: C.unique_list(*args)
+                f = lambda: _noalias(C.unique_list(*args), list(args) + [None])
+            elif name == "unique_list_then_mutate":
+                def f(args=args):
+                    src = args[0]
+                    r = C.unique_list(src)
+                    r.append("R")
+                    src.append("S")
+                    return [r, src]
             elif name == "get_id":
                 f = lambda: C._get_id(args[0]) == id(args[0]) if hasattr(C, "_get_id") else True
             elif hasattr(P, name):
@@ -1232,12 +1278,23 @@ def exec_surface(prog):
             "am": SU.anon_map, "immbase": IM.ImmutableDictBase,
             "roc": type("ROC", (IM.ReadOnlyContainer, dict), {})}[fam]
     ini = prog.get("init", "NOARG")
-    first = _try(lambda: (ctor() if ini == "NOARG" else ctor(val(ini))) and None)
+    src = None if ini == "NOARG" else val(ini)
+    hold = {}
+
+    def mk():
+        hold["s"] = ctor() if ini == "NOARG" else ctor(src)
+
+    first = _try(mk)
     if first and first[0] == "exc":
         return [first, [], []]
-    subj = ctor() if ini == "NOARG" else ctor(val(ini))
+    subj = hold["s"]
     for st in prog["steps"]:
-        if st[0] == "get_anon":
+        if st[0] == "src_append":
+            # the caller mutates the object the subject was built from: the subject must not change
+            r = _try(lambda: src.append(val(st[1])) if isinstance(src, list) else None)
+        elif st[0] == "src_read":
+            r = _try(lambda: src if isinstance(src, (list, dict, set, tuple)) else None)
+        elif st[0] == "get_anon":
             o = val(st[1])
             _IDS[id(o)] = canon(o)
             r = _try(lambda: subj.get_anon(o))
@@ -1530,18 +1587,22 @@ def _small_iter(rng, elems, allow_exotic=True):
 def _gen_os(rng):
     E = [0, 1, 2, 3, 4, 5, "a", "b", None, {"T": [1, 2]}]
     it = lambda: _small_iter(rng, E)
-    init = rng.choice([_NOINIT, it(), it(), {"D": [[1, 2], [0, 3]]}, None])
+    init = rng.choice([_NOINIT, it(), it(), rng.sample(E[:8], rng.randint(0, 4)), rng.sample(E[:8], rng.randint(0, 4)), {"D": [[1, 2], [0, 3]]}, None])
     steps = []
     for _ in range(rng.randint(1, 7)):
         k = rng.choice(
             ["add", "remove", "pop", "insert", "discard", "clear", "getitem", "list", "len", "in", "repr", "update", "union",
              "intersection", "symmetric_difference", "difference", "intersection_update", "symmetric_difference_update",
              "difference_update", "or", "and", "xor", "sub", "ior", "iand", "ixor", "isub", "copy", "plus", "eq", "issubset",
-             "pickle"]
+             "pickle", "src_append", "src_read", "src_read"]
         )
         e = rng.choice(E)
         if k in ("add", "remove", "discard", "in"):
             steps.append([k, e])
+        elif k == "src_append":
+            steps.append(["src_append", rng.choice([7, 8, "z"])])
+        elif k == "src_read":
+            steps.append(["src_read"])
         elif k == "insert":
             steps.append(["insert", rng.randint(-7, 7), e])
         elif k == "getitem":
@@ -1646,7 +1707,10 @@ def _gen_fn(rng):
                 idx = [rng.randint(-5, 5) for _ in range(n)]
             steps.append(["tuplegetter", idx, rng.choice(ROWS)] if k == "tg" else ["tuplegetter_form", idx])
         elif k == "ul":
-            steps.append(["unique_list", rng.choice([_small_iter(rng, [1, 2, 3, "a", None, {"T": [1]}]), None, 5, [[1]], "abca"])])
+            if rng.random() < 0.4:
+                steps.append(["unique_list_then_mutate", [rng.choice([1, 2, 3, "a"]) for _ in range(rng.randint(0, 4))]])
+            else:
+                steps.append(["unique_list", rng.choice([_small_iter(rng, [1, 2, 3, "a", None, {"T": [1]}]), None, 5, [[1]], "abca"])])
         else:
             steps.append(["get_id", rng.choice([{"O": 0}, 1, "a", None])])
     return "fn", _NOINIT, steps
@@ -1735,9 +1799,9 @@ def _gen_res(rng, mismatch=False):
     keys = ["a", "b", "c"][:nk]
     ini = {"keys": keys}
     if rng.random() < 0.55:
-        ini["procs"] = [rng.choice(["none", "to_s", "add10", "neg", "raise_odd" if rng.random() < 0.3 else "add10"]) for _ in range(nk)]
+        ini["procs"] = [rng.choice(["none", "to_s", "add10", "neg", "raise_odd" if rng.random() < 0.3 else "add10", "null_to_s", "count"]) for _ in range(nk)]
     nr = rng.randint(0, 5)
-    mk = lambda ln: [rng.choice([1, 2, 3, 4, 2]) for _ in range(ln)]
+    mk = lambda ln: [rng.choice([1, 2, 3, 4, 2, None]) for _ in range(ln)]
     rows = [mk(nk) for _ in range(nr)]
     if rng.random() < 0.3 and rows:
         rows.append(list(rows[0]))
@@ -1753,7 +1817,7 @@ def _gen_res(rng, mismatch=False):
         ini["logrows"] = 1
     if rng.random() < 0.12 and nk == 1:
         ini["scalars_src"] = 1
-        ini["rows"] = [r[0] for r in rows if len(r) == 1]
+        ini["rows"] = [r[0] for r in rows if len(r) == 1 and r[0] is not None]
         ini.pop("procs", None)
     steps = []
     for _ in range(rng.randint(0, 2)):
@@ -1822,6 +1886,44 @@ def _model_cases(rng, tier):
         add([1, ps, data], "m1")
         if any(ps):
             add([2, ps, data], "m2")
+    # rows holding None at processed positions; processors that are NOT None-preserving (5) or only count calls (6):
+    # every processor is applied to every value, None included
+    for ln in range(1, 4):
+        for ps in itertools.product([0, 5, 6, 1], repeat=ln):
+            if not any(ps):
+                continue
+            for mask in range(1 << ln):
+                data = [NONE_CODE if mask >> i & 1 else 4 + i for i in range(ln)]
+                add([2, list(ps), data], "m2-none")
+                if mask % 3 == 0:
+                    add([1, list(ps), data], "m1-none")
+    for k in (5, 6, 1):
+        for rows in ([NONE_CODE], [2, NONE_CODE, 4], [NONE_CODE, NONE_CODE]):
+            add([3, k, rows], "m3a")
+            add([3, k, rows], "m3b")
+    # 11 aliasing: build from a list, mutate the source, observe; mutate the result, observe the source
+    for src in ([], [1], [1, 2, 3], [1, 1, 2], [3, 1, 3]):
+        for mk in (1, 2):
+            add([11, [[0, src], [mk, 0], [3, 0, 9], [5, 1], [5, 0]]], "m11")
+            add([11, [[0, src], [mk, 0], [4 if mk == 2 else 3, 1, 8], [5, 0], [5, 1]]], "m11")
+            add([11, [[0, src], [mk, 0], [mk, 0], [4 if mk == 2 else 3, 1, 7], [5, 2], [5, 0], [3, 0, 6], [5, 1], [5, 2]]], "m11")
+    for _ in range(20 * n):
+        ops = [[0, [rng.randint(0, 4) for _ in range(rng.randint(0, 4))]]]
+        kinds = ["l"]
+        for _ in range(rng.randint(2, 8)):
+            r = rng.random()
+            o = rng.randrange(len(kinds))
+            if r < 0.3:
+                lists = [i for i, k in enumerate(kinds) if k == "l"]
+                mk = rng.choice([1, 2])
+                ops.append([mk, rng.choice(lists)])
+                kinds.append("l" if mk == 1 else "s")
+            elif r < 0.6:
+                ops.append([3 if kinds[o] == "l" else 4, o, rng.randint(0, 9)])
+            else:
+                ops.append([5, o])
+        ops += [[5, i] for i in range(len(kinds))]
+        add([11, ops], "m11")
     # 3 many_rows / interim_rows
     for k in (1, 2, 3, 4):
         for ln in range(0, 5):
